@@ -33,6 +33,9 @@ type wRun struct {
 	Arg      string `json:"arg,omitempty"`
 	Seed     int    `json:"seed"`
 	Temp     bool   `json:"temporary_mode,omitempty"`
+	// After "honest": an honest exchange on the same group (g = 4) is completed in this process immediately before the
+	// strategy runs, so that anything the library remembers between exchanges (verified primes, parsed keys) is populated
+	After string `json:"after,omitempty"`
 }
 
 var (
@@ -294,6 +297,19 @@ func configure(s *refexchange.ScriptedServer, w wRun) (want expect, ok bool) {
 		if strings.HasPrefix(variant, "pad0:") {
 			return either, true
 		}
+	case "m2.g.consistent":
+		// the peer uses the bad generator itself throughout (g_a = bad^a, key from the client's g_b): nothing but the
+		// client's own check of (g, dh_prime) stands between it and a completed exchange. arg = "<group>/<bad g>"
+		i := strings.IndexByte(arg, '/')
+		if i < 0 {
+			return mustRefuse, false
+		}
+		p := refexchange.GroupByName(arg[:i])
+		bad := atoi(arg[i+1:])
+		if p == nil || bad < 2 || (bad <= 7 && refexchange.EulerQR(int64(bad), p)) {
+			return mustRefuse, false
+		}
+		s.DhPrime, s.G = p, bad
 	case "m2.g":
 		// only g differs from the honest run: arg = "<group>/<bad g>"
 		i := strings.IndexByte(arg, '/')
@@ -477,6 +493,19 @@ func evalRun(w wRun) kit.Result {
 		return kit.Result{Trivial: true, Outcome: "unknown-strategy"}
 	}
 	clientSeed := uint64(w.Seed)*2 + 0xc11e
+	if w.After == "honest" {
+		group := "telegram"
+		if i := strings.IndexByte(w.Arg, '/'); i > 0 && refexchange.GroupByName(w.Arg[:i]) != nil {
+			group = w.Arg[:i]
+		}
+		pre := newServer(w.Seed + 2000003)
+		if _, ok := configure(pre, wRun{Strategy: "honest", Arg: group + "/4", Seed: w.Seed}); !ok {
+			return infra("prelude honest(%s/4) not configurable", group)
+		}
+		if first := session(pre, clientSeed+0x999, w.Temp); first.err != nil {
+			return infra("prelude honest(%s/4) before %s(%s) failed: %v", group, w.Strategy, w.Arg, first.err)
+		}
+	}
 	if w.Strategy == "replay" {
 		// record an honest session of another client (different randomness => different nonces) ...
 		rec := newServer(w.Seed + 1000003)
@@ -624,6 +653,7 @@ func main() {
 		add("m2.g_a.wire", "pad0:1", "pad0:4", "prefix:01", "prefix:ff00", "suffix:00", "suffix:01", "double", "drop-first", "drop-last")
 		add("m2.g", "telegram/0", "telegram/1", "telegram/-1", "telegram/8", "telegram/9", "telegram/-3", "telegram/131075",
 			"telegram/2", "telegram/6", "gen2/5", "gen2/7", "gen3/2", "gen3/6", "gen3/7", "gen1/2", "gen1/5", "gen1/6")
+		add("m2.g.consistent", "telegram/2", "telegram/6", "telegram/8", "telegram/9", "gen2/5", "gen2/7", "gen3/2", "gen3/6", "gen3/7", "gen1/2", "gen1/5", "gen1/6")
 		add("m2.g_a", "0", "1", "2", "p-1", "p", "p+1", "p+2^1985", "2^1984", "2^1984-1", "p-2^1984", "p-2^1984+1", "2^2048-1")
 		add("m2.g_a.forced-key", "0", "1", "p-1:even", "p-1:odd")
 		add("m2.g_a.foreign", "0", "1")
@@ -644,6 +674,12 @@ func main() {
 		for _, e := range lib {
 			for s := 0; s < seeds; s++ {
 				cases = append(cases, wRun{Strategy: e.s, Arg: e.a, Seed: s})
+			}
+		}
+		// history: every substitution of the DH parameters again, directly after an honest exchange on the same group
+		for _, e := range lib {
+			if strings.HasPrefix(e.s, "m2.g") || strings.HasPrefix(e.s, "m2.dh_prime") {
+				cases = append(cases, wRun{Strategy: e.s, Arg: e.a, Seed: 0, After: "honest"})
 			}
 		}
 		// the key a client would derive modulo a longer dh_prime fits 2048 bits only in a fraction of the runs: more seeds
